@@ -121,8 +121,31 @@ def write_spec(pls, tag):
 
 
 def run_impl(spec_path, lines, nproc=8):
-    outs = lib.parallel_lines([lib.PY, IMPL, lib.REPO, spec_path], lines, nproc=nproc, env=lib.impl_env())
-    return [json.loads(o) for o in outs]
+    """like lib.parallel_lines (contiguous chunks, one result line per case) but without its
+    200-lines-per-process floor: a case costs 0.1-0.4 CPU-s here, a worker start ~3 s"""
+    import subprocess
+    from concurrent.futures import ThreadPoolExecutor
+    if not lines:
+        return []
+    nproc = max(1, min(nproc, 8, (len(lines) + 24) // 25))
+    size = (len(lines) + nproc - 1) // nproc
+    chunks = [lines[i:i + size] for i in range(0, len(lines), size)]
+    argv = [lib.PY, IMPL, lib.REPO, spec_path]
+
+    def one(chunk):
+        p = subprocess.run(argv, input='\n'.join(chunk) + '\n', env=lib.impl_env(), stdout=subprocess.PIPE,
+                           stderr=subprocess.PIPE, text=True, timeout=7200)
+        out = p.stdout.split('\n')
+        if out and out[-1] == '':
+            out.pop()
+        if p.returncode != 0 or len(out) != len(chunk):
+            raise RuntimeError(f'{argv}: rc={p.returncode}, {len(out)} results for {len(chunk)} cases\n'
+                               + p.stderr[-3000:])
+        return out
+
+    with ThreadPoolExecutor(len(chunks)) as ex:
+        res = list(ex.map(one, chunks))
+    return [json.loads(o) for r in res for o in r]
 
 
 def model_line(pls, case, out):
